@@ -12,7 +12,7 @@
    (C07_second_removal_noop).  Failing-send cases at stream level: correspondence and spec oracle. *)
 From Coq Require Import ZArith List Bool Lia.
 From Mgr Require Import Gen.MgrDefs Model.Manager Proofs.ListLemmas Proofs.RegInv Proofs.Frame Proofs.RegTraverse Proofs.RegTop
-                        Proofs.Connect Proofs.StepInv Proofs.Exact Proofs.DepartExact.
+                        Proofs.Connect Proofs.StepInv Proofs.C05Inv Proofs.Exact Proofs.DepartExact Proofs.LoopExact.
 Import ListNotations.
 Open Scope Z_scope.
 
@@ -84,6 +84,26 @@ Proof. intros s m H. unfold registered in H. apply filter_In in H. tauto. Qed.
 Theorem C07_departed_not_in_use : forall cfg fuel es u s, run cfg fuel es = Ok u s ->
   forall c, m_reg (find_mod c (mods s)) = false -> ~ In (find_mod c (mods s)) (registered s).
 Proof. intros cfg fuel es u s _ c Hr Hin. apply C07_id_and_name_free in Hin. congruence. Qed.
+
+(* "Delivery among the remaining clients is unaffected, including for the message during whose delivery the failure
+   was discovered": whatever number of recipients of one message turn out to be dead or not writable while it is being
+   delivered, every healthy recipient that is not itself a notice subscriber gets exactly one whole unmodified copy,
+   and everybody else gets nothing of it (one level of nesting; see C14_mixed_delivery for the full statement) *)
+Theorem C07_inflight_delivery_unaffected : forall cfg fuel es u s (k : nat) p hh,
+  run cfg fuel es = Ok u s -> 40 < loglevel cfg -> Env s ->
+  zmem (h_type hh) no_notice_types = false -> h_type hh <> ALL_MESSAGE_TYPES ->
+  bad_dest_mod (h_dst_mod hh) = false -> bad_dest_host (h_dst_host hh) = false ->
+  (forall c, In c (snapshot s (h_type hh)) -> classified (h_dst_mod hh) s c = true) ->
+  exists fr s', forward cfg (Datatypes.S (Datatypes.S k)) hh p s = Ok tt s' /\ out s' = out s ++ fr /\
+    forall f, ~ In f (snapshot s MT_CLIENT_CLOSED) -> ~ In f (snapshot s MT_FAILED_MESSAGE) ->
+      (In f (snapshot s (h_type hh)) -> is_ready s f = true -> eligible (h_dst_mod hh) s f = true ->
+         exists n, proj f fr = [OHdr (set_count hh n); OPay p]) /\
+      (~ (In f (snapshot s (h_type hh)) /\ is_ready s f = true /\ eligible (h_dst_mod hh) s f = true) -> proj f fr = []).
+Proof.
+  intros cfg fuel es u s k p hh H1 H2 H3 H4 H5 H6 H7 H8.
+  destruct (forward_general_reachable cfg fuel es u s k p hh H1 H2 H3 H4 H5 H6 H7 H8) as (fr & hh' & s' & E & Ho & _ & Hp & _).
+  exists fr, s'. split; [exact E|]. split; [exact Ho|exact Hp].
+Qed.
 
 (* non-vacuity: a subscriber whose write fails during a delivery is gone afterwards, the other
    subscriber still got the message, and one CLIENT_CLOSED was published (to the monitor, conn 3) *)
